@@ -507,6 +507,29 @@ class Recorder:
         return Recorder(f"{self._name}[{i}]", self._log)
 
 
+class GhostFormat:
+    """a cell format; xlsxwriter's documented precondition on colours (#RRGGBB or a colour name) is an
+    obligation of the caller"""
+
+    NAMES = {"black", "blue", "brown", "cyan", "gray", "green", "lime", "magenta", "navy", "orange", "pink", "purple", "red", "silver", "white", "yellow", "automatic"}
+
+    def __init__(self):
+        self.props = {}
+
+    def set_bg_color(self, color):
+        import re
+        from .contract import Clause
+
+        ok = isinstance(color, str) and (bool(re.match(r"^#[0-9A-Fa-f]{6}$", color)) or color.lower() in self.NAMES)
+        current().add_clause(Clause("requires[xlsxwriter: a colour is #RRGGBB or a colour name]", z3.BoolVal(ok), props=("C16",), kind="requires", note=f"colour {color!r}"))
+        self.props["bg_color"] = color
+
+    def __getattr__(self, attr):
+        if attr.startswith("__"):
+            raise AttributeError(attr)
+        return lambda *a, **k: None
+
+
 class _Workbook(Recorder):
     def __init__(self, filename=None, *a, **k):
         log = []
@@ -521,10 +544,39 @@ class _Workbook(Recorder):
         return ws
 
     def add_format(self, props=None):
-        return Recorder("format", [])
+        return GhostFormat()
 
     def close(self):
         self._log.append(("workbook", "close", (), {}))
+
+
+class GhostFile:
+    """a file opened for writing: the text is recorded, nothing touches the disk"""
+
+    def __init__(self, name, mode):
+        self.name, self.mode, self.data = name, mode, []
+        current().events.append(("file", self))
+
+    def write(self, text):
+        self.data.append(text)
+        return len(text)
+
+    def __enter__(self):
+        return self
+
+    def __exit__(self, *a):
+        return False
+
+    def close(self):
+        pass
+
+
+def ghost_open(file, mode="r", *a, **k):
+    if any(c in mode for c in "wax"):
+        return GhostFile(file, mode)
+    import builtins
+
+    return builtins.open(file, mode, *a, **k)
 
 
 def ghost_modules():
